@@ -106,6 +106,7 @@ impl<H: HashChain> HssPrivateKey<H> {
         let aux_len = hss_get_aux_data_len(aux_data.len(), *top_lms_parameter);
         let moved = core::mem::take(aux_data);
         *aux_data = &mut moved[..aux_len];
+        aux_data.fill(0);
 
         let aux_level = hss_optimal_aux_level(aux_len, *top_lms_parameter, None);
         hss_store_aux_marker(aux_data, aux_level);
